@@ -12,3 +12,11 @@ func VerifParseRedisURL(s string) (host, password string, db int, err error) {
 	}
 	return u.Host, u.Password, u.DB, nil
 }
+
+// VerifCollectGarbage runs one expiry pass with the given cutoff.
+func VerifCollectGarbage(s interface{}, cutoffNs int64) error {
+	return s.(*peerStore).collectGarbage(timeUnix(cutoffNs))
+}
+
+// VerifPopulateProm runs the metrics aggregation once.
+func VerifPopulateProm(s interface{}) { s.(*peerStore).populateProm() }
